@@ -94,7 +94,7 @@ def spectrum_clear_of_cut(w, cut=1e-12):
     w = np.asarray(w, dtype=float)
     wmax = max(float(np.max(np.abs(w))), 1e-300)
     kept = w > max(100 * cut, 1e-7 * wmax)
-    noise = np.abs(w) < min(cut / 100, 1e-13 * wmax)
+    noise = np.abs(w) < min(cut / 5, 200 * np.finfo(float).eps * wmax * len(w))
     return bool(np.all(kept | noise))
 
 
